@@ -13,6 +13,7 @@ fn vocab() -> Vec<&'static str> {
         "{18446744073709551615}", "{99999999999999999999}", "\\", "\\1", "\\2", "\\k<n>", "\\k<1>", "\\k<-1>", "\\k<99999999999>", "(?P=n)", "\\g<1>", "\\K", "\\G", "\\b", "\\d", "\\x{", "\\x41",
         "\\u0041", "\\p{L}", "(?i)", "(?x)", "(?(1)", "(?(", "(?#", "#", " ", "^", "$", "\\z", "\\A", "\\h", "\\e", "-", ",", "1", "\\Q", "\\", "\u{0e01}", "\\x{100000000}", "\\x{10ffff}", "\\x{110000}", "\\u{fffffffff}", "\\400000000", "\\g400000000", "(?(400000000)", "\\k<400000000>",
         // unfinished counted repeats, closed comments, flag groups, free-spacing tails
+        "\\k<-9223372036854775808>", "\\k<-9223372036854775807>", "\\g<-9223372036854775808>", "(?(<-9223372036854775808>)", "\\k<-18446744073709551616>",
         "{2", "{2 ", "(?#c)", "(?i:", "(?x: ", "# t", "\n", "{,2}", "{2,3", "(?<n>a)", "(?(<n>)", "(?'n'", "\\k'n'",
     ]
 }
@@ -23,7 +24,9 @@ fn check(p: &str) -> Option<String> {
     if r.is_none() {
         // memory proportional to the pattern: no single allocation of more than 16 MiB for these tiny patterns (the automata engine's own tables stay far below)
         let mx = crate::MAX_ALLOC.load(std::sync::atomic::Ordering::Relaxed);
-        if mx > (16 << 20) {
+        // proportional to the pattern: 16 MiB for the engines' fixed tables plus 1 KiB per pattern byte (deep nesting makes the automata
+        // engine's parser allocate a few hundred bytes per level)
+        if mx > (16 << 20) + 1024 * p.len() {
             return Some(format!("Regex::new on a {}-byte pattern made a single allocation of {} bytes", p.len(), mx));
         }
     }
@@ -64,13 +67,13 @@ fn check_inner(p: &str) -> Option<String> {
 /// patterns nested far deeper than the parser's recursion limit, one per opening construct: Regex::new has to answer (Ok or Err)
 /// without exhausting the native stack.  A stack overflow aborts the process, so each is tried in a child process.
 fn deep_patterns() -> Vec<Value> {
-    let openers: [(&str, &str); 14] = [
+    let openers: [(&str, &str); 16] = [
         ("(", ")"), ("(?:", ")"), ("(?i:", ")"), ("(?=", ")"), ("(?!", ")"), ("(?<=", ")"), ("(?<!", ")"), ("(?>", ")"), ("(?<n>", ")"),
-        ("(?(1)", ")"), ("(?(", "a)b)"), ("(?x:", ")"), ("(?:a|", ")"), ("(?:a", ")*"),
+        ("(?(1)", ")"), ("(?(", "a)b)"), ("(?x:", ")"), ("(?:a|", ")"), ("(?:a", ")*"), ("[", "]"), ("[a&&[", "]]"),
     ];
     let mut out = vec![];
     for (o, c) in openers {
-        for n in [100usize, 200_000] {
+        for n in [100usize, 300, 200_000] {
             out.push(json!({"deep": {"open": o, "close": c, "n": n, "closed": true}}));
             out.push(json!({"deep": {"open": o, "close": c, "n": n, "closed": false}}));
         }
